@@ -49,6 +49,86 @@ def braid_suite(ctx, vh):
     return out
 
 
+def hist_suite(ctx, vh):
+    """MC of tla/Replica.tla (exhaustive tiny config + the C10 first-contact config) and seeded
+    simulation of the large config; every emitted behaviour is replayed on real replicas."""
+    out = []
+    mc = ctx.tlc("Replica", "MC_Replica_4.cfg" if ctx.thorough else "MC_Replica.cfg", timeout=3000, cache=True)
+    ctx.require_actions(mc, ["ActBegin", "ActPublish", "Deliver", "DeliverInit", "Commit", "SyncAll"]
+                        + (["ActMerge"] if ctx.thorough else []))
+    ini = ctx.tlc("Replica", "MC_Replica_init.cfg", timeout=900, cache=True)
+    ctx.require_actions(ini, ["DeliverBad", "DeliverInit"])
+    n = 60 if ctx.thorough else 12          # traces per worker; TLC emits every sibling of the last step
+    sim = ctx.tlc("Replica", "Sim_Replica.cfg", timeout=3000, simulate=n, depth=120, cache=True, workers=8)
+    simb = sorted({json.dumps(b, sort_keys=True) for b in sim.replays})
+    simb = [json.loads(x) for x in simb]
+    # vacuity guard for the simulation (no coverage statistics in -simulate mode): measured op counts
+    ops = {}
+    for b in simb:
+        for st_ in b["steps"]:
+            k = st_["op"] + ("+collapse" if st_["op"] == "action" and st_["merges"] else "")
+            k += (":" + st_["res"]) if st_["op"] == "commit" else ""
+            ops[k] = ops.get(k, 0) + 1
+    ctx.cov["simulated_step_counts"] = ops
+    need = ["action", "action+collapse", "action_fail", "deliver", "poison", "flush", "commit:ok", "commit:ConcurrentTransaction"]
+    missing = [k for k in need if not ops.get(k)]
+    if missing:
+        raise verif.ToolError("vacuous simulation: step kinds never generated: %s" % missing)
+    mcb = verif.sample(ctx.rng, mc.replays, 40000) if ctx.thorough else verif.sample(ctx.rng, mc.replays, 8000)
+    simb = simb if ctx.thorough else verif.sample(ctx.rng, simb, 4000)
+    ctx.cov["hist_behaviours"] = {"mc_exhaustive_total": len(mc.replays), "mc_replayed": len(mcb),
+                                  "init_shapes": len(ini.replays), "simulated_replayed": len(simb),
+                                  "mc_states": mc.states}
+    if not mcb or not simb or not ini.replays:
+        raise verif.ToolError("Replica emitted no behaviours")
+    out += ctx.run_engine(vh, "hist", mcb, opts={"hello": 1, "reps": 2}, tag="hist-mc", timeout=1800)
+    out += ctx.run_engine(vh, "hist", ini.replays, opts={"hello": 1, "reps": 2}, tag="hist-init")
+    out += ctx.run_engine(vh, "hist", simb, opts={"hello": 1, "reps": 3, "boot_all": 1}, tag="hist-sim", timeout=1800)
+    # pinned regressions (histories that once failed)
+    import glob, os
+    pins = sorted(glob.glob(os.path.join(verif.REPLAYS, "pinned", "C0*.json")) + glob.glob(os.path.join(verif.REPLAYS, "pinned", "C19*.json")))
+    for p in pins:
+        case = json.load(open(p))["case"]
+        if "steps" in case["input"]:
+            out += ctx.run_engine(vh, "hist", [case["input"]], opts=case.get("opts", {}), tag="pin-" + os.path.basename(p)[:-5])
+    # binding self-test: a perturbed expected view must be rejected
+    victim = next((b for b in mcb if any(s["op"] == "commit" and s["res"] == "ok" and len(s["view"]["seq"]) >= 2 for s in b["steps"])), None)
+    if victim is None:
+        raise verif.ToolError("no behaviour suitable for the self-test")
+    bad = copy.deepcopy(victim)
+    for s in bad["steps"]:
+        if s["op"] == "commit" and s["res"] == "ok" and len(s["view"]["seq"]) >= 2:
+            s["view"]["seq"] = list(reversed(s["view"]["seq"]))
+            break
+    st = ctx.run_engine(vh, "hist", [bad], opts={"hello": 1, "reps": 2}, tag="selftest-hist")
+    if st[0].get("ok"):
+        raise verif.ToolError("binding self-test failed: perturbed expected view accepted")
+    ctx.cov["selftest_hist"] = "perturbed expected view rejected (%s)" % st[0].get("key")
+    return out
+
+
+def full(ctx, notes=None):
+    """What every graph-layer check runs: both suites; each check reports its own keys."""
+    vh = ctx.build("graph")
+    if ctx.replay:
+        case = json.load(open(ctx.replay))["case"]
+        sub = "hist" if "steps" in case["input"] else "braid"
+        res = ctx.run_engine(vh, sub, [case["input"]], opts=case.get("opts", {}))
+        ctx.absorb(res, only_own=True)
+        return
+    res = braid_suite(ctx, vh) + hist_suite(ctx, vh)
+    ctx.absorb(res, only_own=True)
+    ctx.cov["exhaustive"] = False
+    ctx.cov["constants"] = {
+        "MC_Braid": "N=4 all kinds (58 789 DAGs), N=3 with fact ops, N=3 merge-ids-first; thorough N=5 {b0,fin}",
+        "Replica MC": "2 replicas, 1 txn, universe<=3, 5 recorded steps, exhaustive histories",
+        "Replica simulation": "3 replicas, 2 txns, universe<=8, 16 recorded steps, batches<=2, duplicates, orphans, poison, failing actions",
+    }
+    ctx.assumptions += ["audit policy semantics = Braid!Apply (harness/engines/graph/src/audit.rs)",
+                        "structural ids: byte order equals the spec's id order (merge ids always after basic ids, except the MergeTag=0 config)",
+                        "memory-backed linear storage (file-backed storage is C15's subject)"]
+
+
 def replay_only(ctx, vh, sub):
     case = json.load(open(ctx.replay))["case"]
     res = ctx.run_engine(vh, sub, [case["input"]], opts=case.get("opts", {}))
